@@ -136,7 +136,7 @@ func Explore(p *Program, fn *ssa.Function, eo *ExploreOpts) *Result {
 				rmu.Unlock()
 				return
 			}
-			defer sol.Close()
+			defer func() { sol.Close() }()
 			npaths := 0
 			for {
 				job, ok := st.pop()
@@ -153,6 +153,16 @@ func Explore(p *Program, fn *ssa.Function, eo *ExploreOpts) *Result {
 					st.mu.Unlock()
 					st.cond.Broadcast()
 					break
+				}
+				if sol.Dead {
+					// the solver process crashed during the previous path: start a fresh one (paths begin at scope depth 0)
+					old := sol
+					ns, err := NewSolver(eo.Solver, ctx, eo.TimeoutMS, "")
+					if err == nil {
+						ns.Queries, ns.Sat, ns.Unsat, ns.Unknown, ns.Errors, ns.Time, ns.Restarts = old.Queries, old.Sat, old.Unsat, old.Unknown, old.Errors, old.Time, old.Restarts+1
+						old.Close()
+						sol = ns
+					}
 				}
 				ex := NewExec(p, ctx, sol, job, eo.Opts)
 				ex.Harness = fn.Name()
